@@ -75,6 +75,76 @@ func analyzeImpl(in any) any {
 	}
 	return protect(func() any {
 		an := analysis.New(sw)
+		out := renderIndex(an, sw)
+		// the analyzer is re-used after the document has been rewritten in place (what Flatten does after every step):
+		// after reload() it must say about the rewritten document what a fresh analyzer says
+		mutateForReload(sw)
+		an.VerifReload()
+		again, fresh := renderIndex(an, sw), renderIndex(analysis.New(sw), sw)
+		stale := []any{}
+		ai, fi := again["index"].(M), fresh["index"].(M)
+		for _, k := range sortedKeysM(fi) {
+			if !jsonEq(toAny(ai[k]), toAny(fi[k])) {
+				stale = append(stale, k)
+			}
+		}
+		for _, k := range []string{"unresolved", "getterMismatch"} {
+			if !jsonEq(toAny(again[k]), toAny(fresh[k])) {
+				stale = append(stale, k)
+			}
+		}
+		out["reloadStale"] = stale
+		return out
+	})
+}
+
+func sortedKeysM(m M) []string {
+	ks := make([]string, 0, len(m))
+	for k := range m {
+		ks = append(ks, k)
+	}
+	sort.Strings(ks)
+	return ks
+}
+
+// mutateForReload rewrites the document in place: the first definition (in key order) goes, one is added which has
+// a $ref, an allOf member, a pattern and an enum, and the first path goes.
+func mutateForReload(sw *spec.Swagger) {
+	names := make([]string, 0, len(sw.Definitions))
+	for k := range sw.Definitions {
+		names = append(names, k)
+	}
+	sort.Strings(names)
+	if len(names) > 0 {
+		delete(sw.Definitions, names[0])
+	}
+	if sw.Definitions == nil {
+		sw.Definitions = spec.Definitions{}
+	}
+	added := spec.Schema{}
+	added.AllOf = []spec.Schema{*spec.RefSchema("#/definitions/zz~1re loaded")}
+	prop := spec.Schema{}
+	prop.Type = spec.StringOrArray{"string"}
+	prop.Pattern = "^z$"
+	prop.Enum = []any{"z"}
+	added.Properties = map[string]spec.Schema{"p/q": prop}
+	sw.Definitions["zz/re loaded"] = added
+	if sw.Paths != nil {
+		paths := make([]string, 0, len(sw.Paths.Paths))
+		for k := range sw.Paths.Paths {
+			paths = append(paths, k)
+		}
+		sort.Strings(paths)
+		if len(paths) > 0 {
+			delete(sw.Paths.Paths, paths[0])
+		}
+	}
+}
+
+// renderIndex renders every index of an analyzer in the shape of Index.toJson, plus the consistency of the public
+// getters with the private maps and the resolution of every SchemaRef.Ref against the document.
+func renderIndex(an *analysis.Spec, sw *spec.Swagger) M {
+	{
 		d := an.VerifDump()
 		schemas := M{}
 		allOfs := d["allOfs"].(map[string]analysis.VerifSchemaRef)
@@ -184,7 +254,7 @@ func analyzeImpl(in any) any {
 			"consumes": sortedStrings(d["consumes"].([]string)), "produces": sortedStrings(d["produces"].([]string)), "auth": sortedStrings(d["auth"].([]string)),
 		}
 		return M{"index": idx, "unresolved": unresolved, "getterMismatch": getterMismatch}
-	})
+	}
 }
 
 // normIndex puts a model/spec index in the comparison form (sets sorted, empty groups present).
@@ -220,6 +290,7 @@ func analyzeGenDoc(g *Gen) any {
 	// Swagger): only the correspondence between model and implementation is decided on those
 	ood := g.p(0.125)
 	g.DeepChains = true
+	g.PointerLikeNames = true
 	raw := g.Doc(DocOpts{NoPathsProb: 0.05, NonBodySchema: ood})
 	if ood {
 		g.hit("doc:out-of-domain-stream")
@@ -315,6 +386,25 @@ var analyzeStream = (&StreamSpec{
 		}
 		if gm, _ := get(c.Impl, "ok", "getterMismatch").([]any); len(gm) > 0 {
 			fs = append(fs, Finding{Kind: "property", Detail: fmt.Sprintf("public getters disagree with the indexes: %v", gm), Signature: "analyze:getters"})
+		}
+		// the same analyzer, reloaded after the document has been rewritten in place, against a fresh one
+		if st, _ := get(c.Impl, "ok", "reloadStale").([]any); len(st) > 0 {
+			var mine []string
+			for _, x := range st {
+				k := fmt.Sprint(x)
+				if k == "getterMismatch" || (k == "unresolved" && (ctxProp == "C12" || ctxProp == "")) {
+					mine = append(mine, k)
+					continue
+				}
+				for _, s := range secs {
+					if s == k {
+						mine = append(mine, k)
+					}
+				}
+			}
+			if len(mine) > 0 {
+				fs = append(fs, Finding{Kind: "property", Detail: fmt.Sprintf("after the document is rewritten in place and the analyzer reloaded (as Flatten does), the analyzer disagrees with a fresh analysis of the same document on %v", mine), Signature: "analyze:reload-stale"})
+			}
 		}
 		// correspondence: the model must agree with the implementation on every index (all sections: the model is shared)
 		if !jsonEq(impl, model) {
